@@ -96,6 +96,9 @@ func (s *Storage) readApplication(rows *sql.Rows) (model.Application, error) {
 
 // GetApplicationByEUI retrieves the application with the specified application EUI.
 func (s *Storage) GetApplicationByEUI(eui protocol.EUI) (model.Application, error) {
+	if err := gate("GetApplicationByEUI", eui.String()); err != nil {
+		return model.Application{}, err
+	}
 	s.mutex.Lock()
 	defer s.mutex.Unlock()
 
